@@ -38,23 +38,50 @@ def _parts(x, fn) -> list:
     return [fn(x)]
 
 
+def _simplify(x):
+    """Structured._simplify() on any value: a Structured holding only a non-tuple root is that root."""
+    if isinstance(x, Structured):
+        st = x._structure
+        if set(st) == {"root"} and not isinstance(st["root"], tuple):
+            return _simplify(st["root"])
+        return {k: _simplify(v) for k, v in st.items()}
+    if isinstance(x, tuple):
+        return tuple(_simplify(v) for v in x)
+    return x
+
+
+def tree_str(x) -> str:
+    """canonical rendering of a simplified value; mirrors Wilkinson!TreeStr (keys in alphabetical order)"""
+    if isinstance(x, dict):
+        return "<" + ", ".join(f"{k}={tree_str(x[k])}" for k in sorted(x)) + ">"
+    if isinstance(x, tuple):
+        return "(" + ", ".join(tree_str(v) for v in x) + ")"
+    return "[" + " + ".join(" & ".join(f.expr for f in t.factors) for t in x) + "]"
+
+
+def _is_parts(x) -> bool:
+    if isinstance(x, (dict, Structured)):
+        return False
+    if isinstance(x, tuple):
+        return all(not isinstance(v, (dict, tuple, Structured)) for v in x)
+    return True
+
+
 def alpha_structured(res) -> dict:
     """res: Structured[OrderedSet[Term]] from get_terms, or Formula."""
     if not isinstance(res, Structured):  # SimpleFormula
         return {"st": "OK", "shape": "root", "lhs": [], "rhs": [_terms(res)], "m_lhs": [], "m_rhs": [_meths(res)]}
-    keys = set(res._structure)
-    if keys == {"root"}:
-        root = res._structure["root"]
-        if isinstance(root, Structured):
-            return {"st": "OTHER", "shape": "nested"}
-        return {"st": "OK", "shape": "root", "lhs": [], "rhs": _parts(root, _terms), "m_lhs": [], "m_rhs": _parts(root, _meths)}
-    if keys == {"lhs", "rhs"}:
-        l, r = res._structure["lhs"], res._structure["rhs"]
-        if isinstance(l, Structured) or isinstance(r, Structured):
-            return {"st": "OTHER", "shape": "nested"}
-        return {"st": "OK", "shape": "two", "lhs": _parts(l, _terms), "rhs": _parts(r, _terms),
-                "m_lhs": _parts(l, _meths), "m_rhs": _parts(r, _meths)}
-    return {"st": "OTHER", "shape": "keys:" + ",".join(sorted(keys))}
+    simp = _simplify(res)
+    top = simp["root"] if isinstance(simp, dict) and set(simp) == {"root"} else simp
+    if _is_parts(top):
+        return {"st": "OK", "shape": "root", "lhs": [], "rhs": _parts(top, _terms), "m_lhs": [], "m_rhs": _parts(top, _meths)}
+    if isinstance(top, dict) and set(top) == {"lhs", "rhs"}:
+        unroot = lambda v: v["root"] if isinstance(v, dict) and set(v) == {"root"} else v  # noqa
+        l, r = unroot(top["lhs"]), unroot(top["rhs"])
+        if _is_parts(l) and _is_parts(r):
+            return {"st": "OK", "shape": "two", "lhs": _parts(l, _terms), "rhs": _parts(r, _terms),
+                    "m_lhs": _parts(l, _meths), "m_rhs": _parts(r, _meths)}
+    return {"st": "OK", "shape": "tree", "tree": tree_str(simp), "lhs": [], "rhs": [], "m_lhs": [], "m_rhs": []}
 
 
 class _Timeout(Exception):
